@@ -685,9 +685,14 @@ func TestVerifStreamScripts(t *testing.T) {
 					return
 				}
 				var o vOut
-				if stuck.Load() >= 5 {
+				if stuck.Load() >= 40 {
 					o = vOut{I: jobs[n].I, Status: "skipped"}
 				} else {
+					if stuck.Load() >= 2 {
+						// the tree evidently starves calls: keep looking for wrong results, but
+						// do not spend the full watchdog on every further script
+						w.watch = 3 * time.Second
+					}
 					o = w.exec(jobs[n])
 					if o.Status == "stuck" {
 						stuck.Add(1)
